@@ -43,9 +43,11 @@ StoryNT(x) == Nd("story", x, None,
 StoryBare(x, v) == Nd("story", x, None, << Leaf("storyID", x, "="), ItemN("I1", x, v) >>)
 (* unusual but legal story markup: the element carries attributes of its  *)
 (* own, and a second <storyID> child follows the items (the first one is  *)
-(* the story's id)                                                        *)
+(* the story's id; the second one spells the id messages use as "unknown") *)
 StoryAttr(x) == [StoryN(x, "") EXCEPT !.tok = "a:" \o x,
-                                      !.kids = @ \o <<Leaf("storyID", "second." \o x, "=")>>]
+                                      !.kids = @ \o <<Leaf("storyID", UnknownS, "=")>>]
+(* a placeholder story: id and slug only, no items yet                    *)
+StoryEmpty(x) == Nd("story", x, None, << Leaf("storyID", x, "="), Leaf("storySlug", None, "x:slug." \o x \o "-empty") >>)
 (* a story whose storyID tag is blank                                      *)
 StoryBlank == Nd("story", None, None,
                  StoryHdr(None, "") \o << ItemN("I1", "SB", ""), ParaN("SB", 1) >>)
@@ -56,10 +58,13 @@ ItemRun(owner, i, n, mixed) ==
   IF i > n THEN <<>>
   ELSE (IF mixed THEN <<ParaN(owner, i)>> ELSE <<>>) \o <<ItemN(IId(i), owner, "")>>
        \o ItemRun(owner, i+1, n, mixed)
+(* "itemfirst": the first item precedes the story's own header elements  *)
 StoryI(x, n, il) ==
   Nd("story", x, None,
-     StoryHdr(x, "") \o ItemRun(x, 1, n, il = "mixed")
-       \o (IF il = "mixed" THEN <<ParaN(x, n+1)>> ELSE <<>>))
+     IF il = "itemfirst" /\ n >= 1
+     THEN <<ItemN(IId(1), x, "")>> \o StoryHdr(x, "") \o ItemRun(x, 2, n, FALSE)
+     ELSE StoryHdr(x, "") \o ItemRun(x, 1, n, il = "mixed")
+            \o (IF il = "mixed" THEN <<ParaN(x, n+1)>> ELSE <<>>))
 
 Lead == << Leaf("roID", RoIdC, "="), Leaf("roSlug", None, "x:roSlug"),
            Leaf("roEdStart", None, "ed:0") >>
@@ -86,9 +91,11 @@ Root == << Leaf("mosID", None, "x:mosID"), Leaf("ncsID", None, "x:ncsID"),
 (* story-level shape: n stories, layout                                   *)
 ShapeS(n, lay) ==
   [root |-> Root,
-   kids |-> Lead \o (IF n = 0 /\ lay \in {"between", "both"} THEN <<Between>> ELSE <<>>)
+   kids |-> (IF lay = "leadlast" THEN <<>> ELSE Lead)       \* "leadlast": the stories come first, roID & co after them
+                 \o (IF n = 0 /\ lay \in {"between", "both"} THEN <<Between>> ELSE <<>>)
                  \o StoryRun(1, n, lay)
-                 \o (IF lay \in {"trailing", "both"} THEN <<Trailing>> ELSE <<>>)]
+                 \o (IF lay \in {"trailing", "both"} THEN <<Trailing>> ELSE <<>>)
+                 \o (IF lay = "leadlast" THEN Lead ELSE <<>>)]
 
 (* item-level shape: S1 with n items, then S2 with the SAME item ids      *)
 ShapeI(n, il) ==
@@ -145,7 +152,7 @@ FreshItems(S, k) ==
   LET f == FreshFrom(FreshPoolI, IdSet(S, "item")) IN [i \in 1..k |-> ItemN(f[i], "msg", "")]
 CarriedItems(S) == { FreshItems(S, k) : k \in 1..MaxCarried }
 
-SendMsgs(K) ==
+SendMsgsAll(K) ==
   { [cls |-> "StorySend", story |-> s, item |-> RefAbsent, ids |-> <<>>, carried |-> <<>>,
      stok |-> st,
      hdr |-> << Leaf("roID", RoIdC, "="),
@@ -153,13 +160,15 @@ SendMsgs(K) ==
                 Leaf("storySlug", None, "x:sendslug"),
                 Leaf("mosExternalMetadata", "sch.time", "tm:send") >>,
      bodyPos |-> bp, body |-> b]
-    : s \in SRefs(K), bp \in {1, 4, 5}, st \in {None, "a:send"},
+    : s \in SRefs(K), bp \in {0, 1, 4, 5}, st \in {None, "a:send"},
       b \in { <<>>,
               << Leaf("storyItem", "I9", "x:senditem") >>,
               << Leaf("p", None, "x:sendp1"), Leaf("storyItem", "I9", "x:senditem"),
                  Leaf("p", None, "x:sendp2"), Leaf("storyItem", "I8", "x:senditem2") >>,
               << Leaf("p", None, "e:empty"), Leaf("storyItem", "I9", "x:senditem"),
                  Leaf("p", None, "w:blank"), Leaf("p", None, "e:empty"), Leaf("storyTag", None, "x:other") >> } }
+(* without a <storyBody> (bodyPos = 0) there are no body children to speak of *)
+SendMsgs(K) == { m \in SendMsgsAll(K) : m.bodyPos = 0 => m.body = <<>> }
 
 StoryMsgs(cls, K) ==
   CASE cls = "StorySend"   -> SendMsgs(K)
@@ -220,8 +229,8 @@ OtherMsgs(cls, K) ==
          { Msg(cls, RefAbsent, RefAbsent, <<>>, <<Leaf("roDelete", None, t)>>)
              : t \in {"x:roDelete", "x:roDelete.foreign"} }     \* the second one carries another roID
     [] cls = "RunningOrderReplace" ->
-         { Msg(cls, RefAbsent, RefAbsent, <<>>,
-               << Leaf("roID", RoIdC, "="), Leaf("roSlug", None, "x:replSlug") >> \o e \o c)
-             : e \in { <<>>, <<Leaf("roEdStart", None, "e:empty")>> }, c \in { <<>>, FreshStories(K, 1), <<StoryN("S1", "'")>> \o FreshStories(K, 2) } }
+         { [Msg(cls, RefAbsent, RefAbsent, <<>>,
+                << Leaf("roID", RoIdC, "="), Leaf("roSlug", None, "x:replSlug") >> \o e \o c) EXCEPT !.stok = st]
+             : st \in {None, "a:repl"}, e \in { <<>>, <<Leaf("roEdStart", None, "e:empty")>> }, c \in { <<>>, FreshStories(K, 1), <<StoryN("S1", "'")>> \o FreshStories(K, 2) } }
 
 =============================================================================
